@@ -1,18 +1,22 @@
 (* Observables of the C10 correspondence check: second-order filter function and frequency shifts
    of the model (enclosures) from the eigh data of the implementation.                           *)
 From Coq Require Import ZArith List NArith.
-From FF Require Import Base.Ops Model.Numeric Model.SecondOrder Corr.Agree.
+From Coq Require Import String.
+From FF Require Import Base.Ops Extracted.Src Model.Numeric Model.SecondOrder Corr.Agree.
 Import ListNotations.
+
+(* threshold of the case selection of numeric._second_order_integral (binary64 value of the literal 1e-8) *)
+Definition soi_thr : Z * Z := snd (hd (""%string, (0, 0)%Z) thr_numeric__second_order_integral).
 
 Section O.
 Context {T : Type} (Op : Ops T (option bool)).
 Variable d : nat.
 
-Definition model_F2 (thr : T) (evs : list (list T)) (Vs : list (Mat (T:=T))) (om : list T)
+Definition model_F2 (thr thr2 : T) (evs : list (list T)) (Vs : list (Mat (T:=T))) (om : list T)
            (bs ns : list (Mat (T:=T))) (nc : list (list T)) (dts : list T) : Arr5 (T:=T) :=
-  second_order_from_eig Op d thr evs Vs om bs ns nc dts.
+  second_order_from_eig Op d thr thr2 evs Vs om bs ns nc dts.
 
-Definition flat5 {A} (x : list (list (list (list (list A))))) : list A := concat (concat (concat (concat x))).
+Definition flat5 {A} (x : list (list (list (list (list A))))) : list A := List.concat (List.concat (List.concat (List.concat x))).
 
 (* reading a rank-5 complex array of dyadics (the implementation's F2) *)
 Definition rarr5 (x : list (list (list (list (list ((Z*Z)*(Z*Z))))))) : Arr5 (T:=T) :=
@@ -21,6 +25,6 @@ Definition model_shifts (na nk : nat) (F2 : Arr5 (T:=T)) (S : list (list T)) (om
   flat3 (frequency_shifts Op na nk F2 S om).
 
 (* one entry of _second_order_integral *)
-Definition model_soi (w evi evj evm evn dt : T) : C (T:=T) := soi_entry Op w evi evj evm evn dt.
+Definition model_soi (thr2 w evi evj evm evn dt : T) : C (T:=T) := soi_entry Op thr2 w evi evj evm evn dt.
 
 End O.
